@@ -63,7 +63,8 @@ var rewriteVals = []string{
 	"NOERROR;MX;10 mail.example.org", "NOERROR;TXT;hello", "NXDOMAIN;;", "REFUSED;;",
 	"NOERROR;HTTPS;1 . alpn=h3", "NOERROR;SRV;1 2 80 srv.example.org", "NOERROR;PTR;ptr.example.org.",
 }
-var webPaths = []string{"", "/", "/ads.js", "/banner/728x90/img.png", "/path/AdS.js?x=1", "/adsadsads/ads.gif", "/img/banner.png?track=1", "/trackertracker/t.js"}
+var webPaths = []string{"", "/", "/ads.js", "/banner/728x90/img.png", "/path/AdS.js?x=1", "/adsadsads/ads.gif", "/img/banner.png?track=1", "/trackertracker/t.js",
+	"/ad/x.gif", "/ad?slot=1", "/path/ads.js?x=1"}
 var pathPatterns = []string{"/ads.js", "/banner/*/img", "/adsads", "ads.gif|", "/img/banner", "track=", "/AdS.js", "/tracker",
 	"|https://*/ads", ":8080/", "^ads.js^", ".png?track", "/img/*.png?track=1|", "|ws"}
 var typeOpts = []string{"script", "image", "~script", "subdocument", "xmlhttprequest", "script,image", "~image,~other", "document", "stylesheet",
@@ -361,13 +362,32 @@ func GenRule(ch *core.Chooser, k int, hosts []string, prev []string) string {
 		return pre + h + "^$" + pick(ch, "rule.type", typeOpts)
 	case KWebDomain:
 		d := pick(ch, "rule.host2", hosts)
+		// often a domain that an earlier $domain rule names too: rules that
+		// share a bucket of the $domain table
+		if ch.Intn("rule.domaintwin", 3) == 2 {
+			var seen []string
+			for _, p := range prev {
+				if i := strings.Index(p, "domain="); i >= 0 && !strings.Contains(p, "denyallow") {
+					v := p[i+len("domain="):]
+					if j := strings.IndexAny(v, ",|"); j >= 0 {
+						v = v[:j]
+					}
+					if v = strings.TrimPrefix(v, "~"); v != "" && !strings.HasSuffix(v, ".*") {
+						seen = append(seen, v)
+					}
+				}
+			}
+			if len(seen) > 0 {
+				d = seen[ch.Intn("rule.domainseen", len(seen))]
+			}
+		}
 		switch ch.Intn("rule.domainform", 11) {
 		case 7:
 			// patterns too short for the shortcuts table: these rules live
 			// in the $domain table
 			return []string{"/ad^", "ad*", "|ws", "=1"}[ch.Intn("rule.shortpat", 4)] + "$domain=" + d
 		case 8:
-			return "/ad^$domain=" + d + "|" + pick(ch, "rule.host3", hosts)
+			return []string{"/ad^", "/ad^", "ad*", "=1"}[ch.Intn("rule.shortpat", 4)] + "$domain=" + d + "|" + pick(ch, "rule.host3", hosts)
 		case 9:
 			return "@@/ad^$domain=" + d
 		case 4:
@@ -395,7 +415,12 @@ func GenRule(ch *core.Chooser, k int, hosts []string, prev []string) string {
 			// document-level exception for one page of the site only
 			return "@@||" + h + pick(ch, "rule.srcpath", []string{"/checkout", "/news", "/page", "/app?debug=1"}) + "^$" + []string{"urlblock", "genericblock", "document", "elemhide"}[ch.Intn("rule.doc", 4)]
 		}
-		return "@@||" + h + "^$" + []string{"document", "urlblock", "genericblock", "elemhide", "generichide", "jsinject", "stealth", "content"}[ch.Intn("rule.doc", 8)]
+		lim := ""
+		if ch.Intn("rule.doclim", 5) == 4 {
+			// a document-level exception for some clients only
+			lim = []string{",client=alice", ",client=~alice", ",ctag=device_pc", ",client=10.0.0.0/8"}[ch.Intn("rule.doclimv", 4)]
+		}
+		return "@@||" + h + "^$" + []string{"document", "urlblock", "genericblock", "elemhide", "generichide", "jsinject", "stealth", "content"}[ch.Intn("rule.doc", 8)] + lim
 	case KWebMatchCase:
 		// patterns that differ in nothing but the case of a letter
 		switch ch.Intn("rule.mcform", 6) {
